@@ -264,13 +264,35 @@ pub fn gen_node(prop: &str, kind: &str, profile: u8, tier: Tier, rng: &mut Rng, 
     let ramp_base: f32 = rng.range(-8, 8) as f32 * scale;
     let mut ramp_k: i64 = 0;
     let ulp_walk = ramp == 0 && rng.chance(0.08);
-    if ulp_walk && rng.chance(0.6) {
+    let zero_ref = ulp_walk && rng.chance(0.6);
+    if zero_ref {
         match kind {
             "pid" => plan.setf("setpoint", 0.0),
             "cpid" => plan.set("cmd_bits", fb(0.0)),
             _ => {}
         }
     }
+    // "hover": a loop that has settled - every sample sits on the (non-zero) reference or 1..3
+    // representable values next to it, sample after sample (a quantised sensor one step off target)
+    let hover_ref: Option<f32> = if ulp_walk && !zero_ref && rng.chance(0.7) {
+        match kind {
+            "pid" => Some(plan.getf("setpoint")),
+            "cpid" => Some(f32::from_bits(plan.get("cmd_bits") as u32)),
+            _ => None,
+        }
+        .filter(|r| r.is_normal())
+    } else {
+        None
+    };
+    let hover = |rng: &mut Rng, r: f32| -> f32 {
+        let k = *rng.pick(&[0u32, 1, 1, 1, 1, 2, 3]);
+        let b = if rng.chance(0.5) { r.to_bits() + k } else { r.to_bits() - k };
+        if f32::from_bits(b).is_normal() {
+            f32::from_bits(b)
+        } else {
+            r
+        }
+    };
     let mut prev_v: Option<f32> = None;
     let mut tg = TimeGen::new(rng);
     if matches!(kind, "ma_f" | "ma_q") && rng.chance(0.5) {
@@ -444,11 +466,23 @@ pub fn gen_node(prop: &str, kind: &str, profile: u8, tier: Tier, rng: &mut Rng, 
                     }
                 }
             }
+            if let Some(r) = hover_ref {
+                if !is_cpid {
+                    v = hover(rng, r);
+                }
+            }
             prev_v = Some(v);
             if is_cpid {
-                let p = v;
-                let vel = value_gen(rng, scale, false, None);
-                let acc = value_gen(rng, scale, false, None);
+                let mut p = v;
+                let mut vel = value_gen(rng, scale, false, None);
+                let mut acc = value_gen(rng, scale, false, None);
+                if let Some(r) = hover_ref {
+                    match plan.get("cmd_kind") {
+                        0 => p = hover(rng, r),
+                        1 => vel = hover(rng, r),
+                        _ => acc = hover(rng, r),
+                    }
+                }
                 plan.push("SS", &[t, fb(p), fb(vel), fb(acc)]);
             } else if misdim_p > 0.0 && rng.chance(misdim_p) {
                 let (rm, rs) = required_unit(kind).unwrap_or((plan.get("um"), plan.get("us")));
@@ -469,6 +503,11 @@ pub fn gen_node(prop: &str, kind: &str, profile: u8, tier: Tier, rng: &mut Rng, 
         }
         // stall: sometimes change the sensor again before updating
         if profile == 0 && rng.chance(0.06) && push_fault(&mut plan, rng) {
+            since_error = 0;
+        }
+        // the input is live: it changes (to an error) between the first and any later read of this update
+        if have_sample && !matches!(kind, "f2q" | "q2f" | "freeze") && rng.chance(0.03) {
+            plan.push("FLAP", &[rng.range(1, 3)]);
             since_error = 0;
         }
         plan.push("U", &[]);
